@@ -10,6 +10,15 @@ from .formatting import from_superscript
 ParseError = _parser.LarkError
 
 
+def _integer(text: str) -> int:
+    """int(), except that CPython's refusal to convert integers of more than 4300 digits
+    is reported as the ParseError it is for the caller"""
+    try:
+        return int(text)
+    except ValueError as error:
+        raise ParseError(str(error)) from error
+
+
 class QuantityTransformer(_parser.Transformer[Any, "Quantity"]):
     inline = _parser.v_args(inline=True)
 
@@ -27,11 +36,14 @@ class QuantityTransformer(_parser.Transformer[Any, "Quantity"]):
 
     @inline
     def carat_exponent(self, exponent: str) -> int:
-        return int(exponent[1:])
+        return _integer(exponent[1:])
 
     @inline
     def superscript_exponent(self, exponent: str) -> int:
-        value = from_superscript(exponent)
+        try:
+            value = from_superscript(exponent)
+        except ValueError as error:
+            raise ParseError(str(error)) from error
         assert isinstance(value, int)
         return value
 
@@ -39,7 +51,10 @@ class QuantityTransformer(_parser.Transformer[Any, "Quantity"]):
     def quantity(self, magnitude: Numeric, unit: Unit) -> "Quantity":
         return Quantity(magnitude, unit)
 
-    int = inline(int)
+    @inline
+    def int(self, text: str) -> "Numeric":
+        return _integer(text)
+
     float = inline(float)
 
 
